@@ -183,7 +183,7 @@ def message_cases(draw):
     skip = draw(st.integers(0, 3)) == 0
     if as_close:
         specs = [{"fin": 1, "op": rm.CLOSE, "p": struct.pack(">H", 1000) + data, "key": draw(rx.keys)}]
-        driver = draw(st.sampled_from(["data_frame", "data", "recv"] if not skip else ["data_frame", "data"]))
+        driver = draw(st.sampled_from(["data_frame", "data", "recv", "next", "iter"] if not skip else ["data_frame", "data"]))
     else:
         nfrag = draw(st.integers(1, 6))
         cuts = sorted(draw(st.lists(st.integers(0, len(data)), min_size=nfrag - 1, max_size=nfrag - 1)))
@@ -198,7 +198,7 @@ def message_cases(draw):
             specs.append({"fin": int(i == nfrag - 1), "op": rm.TEXT if i == 0 else rm.CONT, "p": data[a:b], "key": draw(rx.keys)})
         if draw(st.booleans()):
             specs += draw(rx.message(big=False))
-        driver = draw(st.sampled_from(["data", "recv", "data_frame"] if not skip else ["data", "data_frame"]))
+        driver = draw(st.sampled_from(["data", "recv", "data_frame", "iter", "next"] if not skip else ["data", "data_frame"]))
     resume = False
     if not as_close and draw(st.integers(0, 2)) == 0:
         # the application catches the rejection and keeps receiving: the next messages must be judged on their own payload
@@ -261,6 +261,18 @@ def run_case(case):
 BOUNDARY = [0x00, 0x7F, 0x80, 0x8F, 0x90, 0x9F, 0xA0, 0xBF, 0xC0, 0xFF]
 
 
+def close_reason_cases():
+    """Close reasons of every length 0..123 (the control-frame limit) ending in each kind of complete / cut-short / stray sequence."""
+    tails = [b"", "é".encode(), "€".encode(), "😀".encode(), b"\xc3", b"\xe2", b"\xe2\x82", b"\xf0", b"\xf0\x9f", b"\xf0\x9f\x98", b"\x80", b"\xed\xa0\x80", b"\xc0\xaf"]
+    for L in range(0, 124):
+        for ti, tail in enumerate(tails):
+            if len(tail) > L:
+                continue
+            data = b"r" * (L - len(tail)) + tail
+            yield {"frames": [{"fin": 1, "op": rm.CLOSE, "p": struct.pack(">H", (1000, 1001, 3000)[L % 3]) + data, "key": None if L % 2 else b"\x01\x02\x03\x04"}],
+                   "driver": ("data_frame", "data", "recv", "iter")[(L + ti) % 4], "skip": False, "mut": "close-len", "as_close": True, "text": data, "resume": False}
+
+
 def jobs(tier, seed):
     out = [{"name": "product", "kind": "cases", "cases": [{"product": True}]},
            {"name": "len01", "kind": "cases", "cases": [{"batch": "len01"}]}]
@@ -283,6 +295,8 @@ def jobs(tier, seed):
 def run_job(job, coll):
     if job["kind"] == "long":
         for c in long_text_cases():
+            coll.check(c, run_case)
+        for c in close_reason_cases():
             coll.check(c, run_case)
         return
     if job["kind"] == "cases":
